@@ -269,8 +269,45 @@ func indexByte(s string, b byte) int {
 	return -1
 }
 
+// manyRuleCase: a grammar with more than 256 rule ids in which every rule is tried at the same offsets (a long ordered
+// choice of keyword rules): rule numbers above 255 take part in memoisation.
+func manyRuleCase(r *rand.Rand, id int) *gcase {
+	n := 270 + r.Intn(60)
+	g := &gram.Grammar{}
+	var alts []*gram.Expr
+	for i := 1; i <= n; i++ {
+		alts = append(alts, gram.Ref(fmt.Sprintf("K%d", i)))
+	}
+	// W <- K1 / K2 / ... ; R0 <- (W ';' / W ',' / W)+ !.   (W is re-entered at the same offset after backtracking)
+	g.Rules = append(g.Rules, &gram.Rule{Name: "R0", E: gram.Seq(gram.Un(gram.KPlus, gram.Alt(gram.Seq(gram.Ref("W"), gram.Lit(";")), gram.Seq(gram.Ref("W"), gram.Lit(",")), gram.Ref("W"))), gram.Un(gram.KNot, gram.Dot()))})
+	g.Rules = append(g.Rules, &gram.Rule{Name: "W", E: gram.Alt(alts...)})
+	word := func(i int) string { return fmt.Sprintf("%c%c%d", 'a'+rune(i%3), 'a'+rune(i%5), i) }
+	for i := 1; i <= n; i++ {
+		g.Rules = append(g.Rules, &gram.Rule{Name: fmt.Sprintf("K%d", i), E: gram.Lit(word(i))})
+	}
+	g.Number()
+	cs := &gcase{id: id, g: g}
+	for k := 0; k < 14; k++ {
+		in := ""
+		for j := 1 + r.Intn(5); j > 0; j-- {
+			in += word(1+r.Intn(n)) + []string{";", ",", "", ";"}[r.Intn(4)]
+		}
+		if k%4 == 3 {
+			in += "zz"
+		}
+		cs.entries = append(cs.entries, entry{-1, in})
+	}
+	return cs
+}
+
 func c06(c *ctx) {
 	cases := backtrackCases(c, tierN(c, 240, 5000), 16, true, false)
+	{
+		r := rand.New(rand.NewSource(c.env.Seed + 77))
+		for k := 0; k < tierN(c, 2, 8); k++ {
+			cases = append(cases, manyRuleCase(r, len(cases)))
+		}
+	}
 	cfgs := []config{{name: "memo", v: vPlain, memo: true}, {name: "nomemo", v: vPlain}}
 	f := &family{c: c, tag: "c06", configs: cfgs, noexec: true, history: []string{"memo"}}
 	f.judge = func(cs *gcase, e entry, it *ref.Interp, refOK bool, refEnd int, res map[string]*corpus.Res) {
@@ -345,7 +382,7 @@ func c06(c *ctx) {
 	}
 	f.run(cases)
 	requireCov(c, "memo_hits_observed", "memo_hits_in_accepting_parse", "memo_hits_in_rejecting_parse", "cases_with_potential_memo_hits_no_probes")
-	c.run.Rule = "cases: revisit-heavy grammars (alternatives A B / A C / A, lookahead followed by consumption &A A, !A ... / A, rules re-entered at the same offset from different callers); the same compiled parser is run with Init() and Init(DisableMemoize()). Half of the grammars start every rule body with an observer predicate that logs (rule, offset) and always succeeds; the other half has no predicate at all. " +
+	c.run.Rule = "cases: revisit-heavy grammars (alternatives A B / A C / A, lookahead followed by consumption &A A, !A ... / A, rules re-entered at the same offset from different callers; plus grammars of 270-330 keyword rules tried at the same offsets, so that rule numbers above 255 are memoised); the same compiled parser is run with Init() and Init(DisableMemoize()). Half of the grammars start every rule body with an observer predicate that logs (rule, offset) and always succeeds; the other half has no predicate at all. " +
 		"Oracle: equal verdict, tokens and (on failure) error token, both equal to the reference; observer log without memo = the reference's rule entries, with memo = their first occurrences (each (rule, offset) evaluated exactly once). " +
 		"distinct_nontrivial = distinct (grammar, entry, input) on which at least one memo hit was observed through the log (or, without probes, the reference re-entered a rule at the same offset)."
 	c.run.Assume("predicates used are observers (always true) or pure functions of the offset")
